@@ -1,1 +1,585 @@
 import Gene.Cond
+/-! C02 — conditions follow boolean algebra, precedence and quantifier meaning.
+
+    Part A: pest's Pratt parser with gene's table, on any atom sequence `a₀ o₁ a₁ … oₙ aₙ` (atoms
+            optionally negated): consumes everything, never panics, and the resulting AST evaluates — in
+            the lazy, three-valued semantics of `compute_for_event` — to the disjunction over the
+            `or`-separated blocks of the conjunction of their atoms.
+    Part B: lifted through parenthesised nesting: `parse_expr` on every CST.
+    Part C: quantifiers count the true operands (no erroring operand): all / any / none / N of.
+    Part D: the statement on condition *strings*. -/
+set_option linter.unusedSimpArgs false
+namespace Gene.Props.C02
+open Gene M
+
+/-! ### the three-valued, lazy connectives -/
+abbrev R := Except EvalErr Bool
+
+def andR (a b : R) : R :=
+  match a with
+  | .error e => .error e
+  | .ok false => .ok false
+  | .ok true => b
+def orR (a b : R) : R :=
+  match a with
+  | .error e => .error e
+  | .ok true => .ok true
+  | .ok false => b
+def notR (a : R) : R :=
+  match a with
+  | .error e => .error e
+  | .ok b => .ok (!b)
+
+theorem andR_assoc (a b c : R) : andR (andR a b) c = andR a (andR b c) := by
+  cases a with
+  | error e => rfl
+  | ok x => cases x <;> rfl
+theorem orR_assoc (a b c : R) : orR (orR a b) c = orR a (orR b c) := by
+  cases a with
+  | error e => rfl
+  | ok x => cases x <;> rfl
+
+/-- an evaluation of ASTs that is a homomorphism for the three connectives (as `compute_for_event` is) -/
+structure Hom (ev : Expr → R) : Prop where
+  and_ : ∀ l r, ev (.binop l .and r) = andR (ev l) (ev r)
+  or_ : ∀ l r, ev (.binop l .or r) = orR (ev l) (ev r)
+  neg_ : ∀ e, ev (.neg e) = notR (ev e)
+
+/-! ### Part A -/
+structure Atom where
+  negd : Bool
+  p : Expr
+
+def atomToks (a : Atom) : List Tok := (if a.negd then [Tok.neg] else []) ++ [Tok.prim a.p]
+def atomE (a : Atom) : Expr := if a.negd then .neg a.p else a.p
+def atomVal (ev : Expr → R) (a : Atom) : R := if a.negd then notR (ev a.p) else ev a.p
+
+theorem ev_atomE {ev : Expr → R} (h : Hom ev) (a : Atom) : ev (atomE a) = atomVal ev a := by
+  unfold atomE atomVal; split
+  · exact h.neg_ _
+  · rfl
+
+abbrev Item := BOp × Atom
+
+def tailToks (rest : List Item) : List Tok := rest.flatMap (fun p => Tok.op p.1 :: atomToks p.2)
+
+@[simp] theorem tailToks_nil : tailToks ([] : List Item) = [] := rfl
+@[simp] theorem tailToks_cons (o : BOp) (b : Atom) (r : List Item) :
+    tailToks ((o, b) :: r) = Tok.op o :: (atomToks b ++ tailToks r) := by
+  simp [tailToks]
+
+/-- reference meaning: disjunction of conjunctions, evaluated lazily left to right;
+    `acc` = value of the current and-chain -/
+def dnf (ev : Expr → R) (acc : R) : List Item → R
+  | [] => acc
+  | (.and, b) :: rest => dnf ev (andR acc (atomVal ev b)) rest
+  | (.or, b) :: rest => orR acc (dnf ev (atomVal ev b) rest)
+
+theorem lbp_tail (rest : List Item) :
+    lbp (tailToks rest) = some (match rest with | [] => 0 | (o, _) :: _ => prec o) := by
+  cases rest with
+  | nil => rfl
+  | cons x r => obtain ⟨o, b⟩ := x; simp [lbp]
+
+theorem loop_stop (g rbp : Nat) (lhs : Expr) (rest : List Item)
+    (h : ∀ o b r, rest = (o, b) :: r → prec o ≤ rbp) :
+    prattLoop (g+1) rbp lhs (tailToks rest) = some (lhs, tailToks rest) := by
+  unfold prattLoop
+  rw [lbp_tail]
+  cases rest with
+  | nil => simp
+  | cons x r =>
+    obtain ⟨o, b⟩ := x
+    have : ¬ rbp < prec o := by have := h o b r rfl; omega
+    simp [this]
+
+theorem prec_le (o : BOp) : prec o ≤ 20 := by cases o <;> simp [prec]
+
+/-- an atom parsed at rbp ≥ 20 is just the atom -/
+theorem expr_atom_hi (f rbp : Nat) (h : 20 ≤ rbp) (a : Atom) (rest : List Item) :
+    prattExpr (f + 3) rbp (atomToks a ++ tailToks rest) = some (atomE a, tailToks rest) := by
+  have hl : ∀ g r' lhs, 20 ≤ r' → prattLoop (g+1) r' lhs (tailToks rest) = some (lhs, tailToks rest) :=
+    fun g r' lhs hr => loop_stop g r' lhs rest (fun o _ _ _ => by have := prec_le o; omega)
+  cases hn : a.negd with
+  | false =>
+    simp only [atomToks, atomE, hn, Bool.false_eq_true, if_false, List.nil_append, List.singleton_append]
+    unfold prattExpr
+    exact hl _ _ _ h
+  | true =>
+    simp only [atomToks, atomE, hn, if_true, List.cons_append, List.nil_append]
+    unfold prattExpr
+    simp only
+    have : prattExpr (f + 2) (negPrec - 1) (Tok.prim a.p :: tailToks rest) = some (a.p, tailToks rest) := by
+      unfold prattExpr
+      exact hl _ _ _ (by decide)
+    rw [this]
+    exact hl _ _ _ h
+
+/-- nud on an atom, then the loop -/
+theorem nud_atom (g rbp : Nat) (a : Atom) (rest : List Item) :
+    prattExpr (g + 4) rbp (atomToks a ++ tailToks rest) = prattLoop (g + 3) rbp (atomE a) (tailToks rest) := by
+  cases hn : a.negd with
+  | false =>
+    simp only [atomToks, atomE, hn, Bool.false_eq_true, if_false, List.nil_append, List.singleton_append]
+    unfold prattExpr
+    rfl
+  | true =>
+    have h29 : prattExpr (g + 3) (negPrec - 1) (Tok.prim a.p :: tailToks rest) = some (a.p, tailToks rest) := by
+      have := expr_atom_hi g (negPrec - 1) (by decide) ⟨false, a.p⟩ rest
+      simpa [atomToks, atomE] using this
+    simp only [atomToks, atomE, hn, if_true, List.cons_append, List.nil_append]
+    unfold prattExpr
+    simp only
+    rw [h29]
+
+def andItems (bs : List Atom) : List Item := bs.map (fun b => (BOp.and, b))
+def chain (lhs : Expr) (bs : List Atom) : Expr := bs.foldl (fun l b => .binop l .and (atomE b)) lhs
+
+/-- `tl` does not start with `and` -/
+def NoAndHead (tl : List Item) : Prop := ∀ o b r, tl = (o, b) :: r → o = .or
+
+theorem loop10 (bs : List Atom) : ∀ (tl : List Item) (lhs : Expr) (f : Nat), NoAndHead tl →
+    bs.length + 4 ≤ f →
+    prattLoop f 10 lhs (tailToks (andItems bs ++ tl)) = some (chain lhs bs, tailToks tl) := by
+  induction bs with
+  | nil =>
+    intro tl lhs f hna hf
+    obtain ⟨g, rfl⟩ : ∃ g, f = g + 1 := ⟨f - 1, by omega⟩
+    simp only [andItems, List.map_nil, List.nil_append, chain, List.foldl_nil]
+    exact loop_stop g 10 lhs tl (fun o b r h => by rw [hna o b r h]; simp [prec])
+  | cons b bs ih =>
+    intro tl lhs f hna hf
+    obtain ⟨g, rfl⟩ : ∃ g, f = g + 4 := ⟨f - 4, by simp at hf; omega⟩
+    have hstep : prattExpr (g + 3) 20 (atomToks b ++ tailToks (andItems bs ++ tl)) =
+        some (atomE b, tailToks (andItems bs ++ tl)) := expr_atom_hi g 20 (by omega) b _
+    have hrec := ih tl (.binop lhs .and (atomE b)) (g + 3) hna (by simp at hf; omega)
+    show prattLoop (g + 3 + 1) 10 lhs (tailToks (andItems (b :: bs) ++ tl)) = _
+    unfold prattLoop
+    simp only [andItems, List.map_cons, List.cons_append, tailToks_cons, lbp, prec]
+    simp only [show (10 : Nat) < 20 by omega, if_true]
+    rw [show andItems bs = bs.map (fun b => (BOp.and, b)) from rfl] at hstep hrec
+    rw [hstep]
+    simp only [chain, List.foldl_cons]
+    exact hrec
+
+theorem expr10 (a : Atom) (bs : List Atom) (tl : List Item) (f : Nat) (hna : NoAndHead tl)
+    (hf : bs.length + 8 ≤ f) :
+    prattExpr f 10 (atomToks a ++ tailToks (andItems bs ++ tl)) = some (chain (atomE a) bs, tailToks tl) := by
+  obtain ⟨g, rfl⟩ : ∃ g, f = g + 4 := ⟨f - 4, by omega⟩
+  rw [nud_atom]
+  exact loop10 bs tl (atomE a) (g + 3) hna (by omega)
+
+def splitAnds : List Item → List Atom × List Item
+  | (.and, b) :: r => ((splitAnds r).1.cons b, (splitAnds r).2)
+  | tl => ([], tl)
+
+theorem splitAnds_spec (r : List Item) :
+    r = andItems (splitAnds r).1 ++ (splitAnds r).2 ∧ NoAndHead (splitAnds r).2 ∧
+      (splitAnds r).1.length + (splitAnds r).2.length = r.length := by
+  induction r with
+  | nil => simp [splitAnds, andItems, NoAndHead]
+  | cons x r ih =>
+    obtain ⟨o, b⟩ := x
+    cases o with
+    | and =>
+      simp only [splitAnds]
+      refine ⟨?_, ih.2.1, ?_⟩
+      · simp only [andItems, List.map_cons, List.cons_append]; congr 1; exact ih.1
+      · simp; omega
+    | or =>
+      simp only [splitAnds]
+      refine ⟨by simp [andItems], ?_, by simp⟩
+      intro o' b' r' h; simp at h; exact h.1.1.symm
+
+theorem dnf_chain (ev : Expr → R) (acc : R) (bs : List Atom) (tl : List Item) :
+    dnf ev acc (andItems bs ++ tl) = dnf ev (bs.foldl (fun x b => andR x (atomVal ev b)) acc) tl := by
+  induction bs generalizing acc with
+  | nil => simp [andItems]
+  | cons b bs ih => simp only [andItems, List.map_cons, List.cons_append, dnf, List.foldl_cons]; exact ih _
+
+theorem ev_chain {ev : Expr → R} (h : Hom ev) (lhs : Expr) (bs : List Atom) :
+    ev (chain lhs bs) = bs.foldl (fun x b => andR x (atomVal ev b)) (ev lhs) := by
+  induction bs generalizing lhs with
+  | nil => rfl
+  | cons b bs ih =>
+    simp only [chain, List.foldl_cons]; rw [← chain, ih]; rw [h.and_, ev_atomE h]
+
+theorem dnf_or_out (ev : Expr → R) (x c : R) (tl : List Item) (h : NoAndHead tl) :
+    dnf ev (orR x c) tl = orR x (dnf ev c tl) := by
+  cases tl with
+  | nil => rfl
+  | cons y r =>
+    obtain ⟨o, b⟩ := y
+    have := h o b r rfl; subst this
+    simp [dnf, orR_assoc]
+
+/-- the top-level loop (rbp = 0): consumes everything; value = DNF meaning -/
+theorem loop0 : ∀ (n : Nat) (rest : List Item) (lhs : Expr) (f : Nat),
+    rest.length ≤ n → 2 * rest.length + 10 ≤ f →
+    ∃ e, prattLoop f 0 lhs (tailToks rest) = some (e, []) ∧
+      ∀ ev : Expr → R, Hom ev → ev e = dnf ev (ev lhs) rest := by
+  intro n
+  induction n with
+  | zero =>
+    intro rest lhs f hn hf
+    have : rest = [] := List.eq_nil_of_length_eq_zero (by omega)
+    subst this
+    obtain ⟨g, rfl⟩ : ∃ g, f = g + 1 := ⟨f - 1, by omega⟩
+    exact ⟨lhs, by simp [prattLoop, lbp], fun _ _ => rfl⟩
+  | succ n ih =>
+    intro rest lhs f hn hf
+    cases rest with
+    | nil =>
+      obtain ⟨g, rfl⟩ : ∃ g, f = g + 1 := ⟨f - 1, by omega⟩
+      exact ⟨lhs, by simp [prattLoop, lbp], fun _ _ => rfl⟩
+    | cons x r =>
+      obtain ⟨o, b⟩ := x
+      obtain ⟨g, rfl⟩ : ∃ g, f = g + 1 := ⟨f - 1, by omega⟩
+      simp only [List.length_cons] at hn hf
+      cases o with
+      | and =>
+        have hstep : prattExpr g 20 (atomToks b ++ tailToks r) = some (atomE b, tailToks r) := by
+          obtain ⟨g', rfl⟩ : ∃ g', g = g' + 3 := ⟨g - 3, by omega⟩
+          exact expr_atom_hi g' 20 (by omega) b r
+        obtain ⟨e, he, hv⟩ := ih r (.binop lhs .and (atomE b)) g (by omega) (by omega)
+        refine ⟨e, ?_, ?_⟩
+        · unfold prattLoop
+          simp only [tailToks_cons, lbp, prec, show (0 : Nat) < 20 by omega, if_true]
+          rw [hstep]; exact he
+        · intro ev hev
+          rw [hv ev hev]; simp only [dnf]; rw [hev.and_, ev_atomE hev]
+      | or =>
+        have sp := splitAnds_spec r
+        generalize hbs : (splitAnds r).1 = bs at sp
+        generalize htl : (splitAnds r).2 = tl at sp
+        obtain ⟨hr, hna, hlen⟩ := sp
+        have hstep : prattExpr g 10 (atomToks b ++ tailToks (andItems bs ++ tl)) =
+            some (chain (atomE b) bs, tailToks tl) := expr10 b bs tl g hna (by omega)
+        obtain ⟨e, he, hv⟩ := ih tl (.binop lhs .or (chain (atomE b) bs)) g (by omega) (by omega)
+        refine ⟨e, ?_, ?_⟩
+        · unfold prattLoop
+          simp only [tailToks_cons, lbp, prec, show (0 : Nat) < 10 by omega, if_true]
+          rw [hr, hstep]; exact he
+        · intro ev hev
+          rw [hv ev hev]
+          simp only [dnf]
+          rw [hev.or_, dnf_or_out ev _ _ tl hna, hr, dnf_chain, ev_chain hev, ev_atomE hev]
+
+/-- **Part A.** Any atom sequence is parsed completely, without panic, into one AST whose value — under
+    every evaluation that treats `and`/`or`/`not` as the lazy three-valued connectives — is the lazy
+    disjunction of the lazy conjunctions of the (possibly negated) atoms. -/
+theorem pratt_correct (a : Atom) (rest : List Item) :
+    ∃ e, prattExpr (2 * rest.length + 20) 0 (atomToks a ++ tailToks rest) = some (e, []) ∧
+      ∀ ev : Expr → R, Hom ev → ev e = dnf ev (atomVal ev a) rest := by
+  obtain ⟨e, he, hv⟩ := loop0 rest.length rest (atomE a) (2 * rest.length + 16 + 3) (Nat.le_refl _) (by omega)
+  refine ⟨e, ?_, fun ev hev => by rw [hv ev hev, ev_atomE hev]⟩
+  rw [show 2 * rest.length + 20 = (2 * rest.length + 16) + 4 by omega, nud_atom]
+  exact he
+
+
+/-! ### Part B: nesting -/
+mutual
+/-- the meaning the property gives a CST: at every level a (lazy) disjunction of conjunctions of
+    possibly negated primaries, a parenthesised primary meaning its content -/
+def denE (ev : Expr → R) : CExpr → R
+  | .mk h t => denT ev (denA ev h) t
+def denT (ev : Expr → R) : R → CTail → R
+  | acc, .nil => acc
+  | acc, .cons .and a t => denT ev (andR acc (denA ev a)) t
+  | acc, .cons .or a t => orR acc (denT ev (denA ev a) t)
+def denA (ev : Expr → R) : CAtom → R
+  | .mk n p => if n then notR (denP ev p) else denP ev p
+def denP (ev : Expr → R) : CPrim → R
+  | .leaf l => ev (leafExpr l)
+  | .paren e => denE ev e
+end
+
+mutual
+theorem astE_ok : ∀ c : CExpr, ∃ e, astE c = some e ∧ ∀ ev : Expr → R, Hom ev → ev e = denE ev c
+  | .mk h t => by
+    obtain ⟨a, ha, hva⟩ := astA_ok h
+    obtain ⟨items, ht, hlen, hvt⟩ := astT_ok t
+    obtain ⟨e, he, hve⟩ := pratt_correct a items
+    refine ⟨e, ?_, ?_⟩
+    · simp only [astE, ha, ht]
+      rw [← hlen, he]
+    · intro ev hev
+      rw [hve ev hev, hva ev hev]
+      simp only [denE]
+      exact hvt ev hev _
+theorem astT_ok : ∀ t : CTail, ∃ items : List Item, astT t = some (tailToks items) ∧ items.length = tailLen t ∧
+    ∀ ev : Expr → R, Hom ev → ∀ acc, dnf ev acc items = denT ev acc t
+  | .nil => ⟨[], rfl, rfl, fun _ _ _ => rfl⟩
+  | .cons o a t => by
+    obtain ⟨b, hb, hvb⟩ := astA_ok a
+    obtain ⟨items, ht, hlen, hvt⟩ := astT_ok t
+    refine ⟨(o, b) :: items, ?_, ?_, ?_⟩
+    · simp only [astT, hb, ht, tailToks_cons]
+    · simp [tailLen, hlen]
+    · intro ev hev acc
+      cases o with
+      | and => simp only [dnf, denT]; rw [hvb ev hev]; exact hvt ev hev _
+      | or => simp only [dnf, denT]; rw [hvb ev hev, hvt ev hev _]
+theorem astA_ok : ∀ a : CAtom, ∃ b : Atom, astA a = some (atomToks b) ∧
+    ∀ ev : Expr → R, Hom ev → atomVal ev b = denA ev a
+  | .mk n p => by
+    obtain ⟨e, he, hv⟩ := astP_ok p
+    refine ⟨⟨n, e⟩, ?_, ?_⟩
+    · simp only [astA, he, atomToks]
+    · intro ev hev
+      simp only [atomVal, denA, hv ev hev]
+theorem astP_ok : ∀ p : CPrim, ∃ e, astP p = some e ∧ ∀ ev : Expr → R, Hom ev → ev e = denP ev p
+  | .leaf l => ⟨leafExpr l, rfl, fun _ _ => rfl⟩
+  | .paren c => by
+    obtain ⟨e, he, hv⟩ := astE_ok c
+    exact ⟨e, by simp only [astP, he], fun ev hev => by simp only [denP]; exact hv ev hev⟩
+end
+
+/-- `compute_for_event` is a homomorphism for the lazy connectives -/
+theorem evalExpr_hom (x : Ext) (ev : Event) (states : List (Str × Bool)) (ops : List (Str × Match)) :
+    Hom (evalExpr x ev states ops) := by
+  refine ⟨?_, ?_, ?_⟩
+  · intro l r
+    simp only [evalExpr, andR]
+    cases evalExpr x ev states ops l with
+    | error e => rfl
+    | ok b => cases b <;> rfl
+  · intro l r
+    simp only [evalExpr, orR]
+    cases evalExpr x ev states ops l with
+    | error e => rfl
+    | ok b => cases b <;> rfl
+  · intro e
+    simp only [evalExpr, notR]
+    cases evalExpr x ev states ops e <;> rfl
+
+/-- **Part B.** `parse_expr` never panics on a CST, and the expression it builds evaluates to the CST's
+    meaning: negation binds tighter than conjunction, which binds tighter than disjunction; parentheses group. -/
+theorem C02_precedence (c : CExpr) :
+    ∃ e, astE c = some e ∧
+      ∀ (x : Ext) (ev : Event) (states : List (Str × Bool)) (ops : List (Str × Match)),
+        evalExpr x ev states ops e = denE (evalExpr x ev states ops) c := by
+  obtain ⟨e, he, hv⟩ := astE_ok c
+  exact ⟨e, he, fun x ev states ops => hv _ (evalExpr_hom x ev states ops)⟩
+
+/-- every spelling of an operator is the same CST node (`parse_expr` reads `as_rule()` only) -/
+theorem C02_spelling (r : Str) :
+    bopTok ("and".toList ++ r) = some (.and, r) ∧ bopTok ("AND".toList ++ r) = some (.and, r) ∧
+    bopTok ("&&".toList ++ r) = some (.and, r) ∧ bopTok ("or".toList ++ r) = some (.or, r) ∧
+    bopTok ("OR".toList ++ r) = some (.or, r) ∧ bopTok ("||".toList ++ r) = some (.or, r) ∧
+    negTok ("not".toList ++ r) = some r ∧ negTok ("!".toList ++ r) = some r :=
+  ⟨rfl, rfl, rfl, rfl, rfl, rfl, rfl, rfl⟩
+
+
+/-! ### Part C: quantifiers count the true operands -/
+def allOf : List R → R
+  | [] => .ok true
+  | .error e :: _ => .error e
+  | .ok false :: _ => .ok false
+  | .ok true :: r => allOf r
+def anyOf : List R → R
+  | [] => .ok false
+  | .error e :: _ => .error e
+  | .ok true :: _ => .ok true
+  | .ok false :: r => anyOf r
+def noneOf : List R → R
+  | [] => .ok true
+  | .error e :: _ => .error e
+  | .ok true :: _ => .ok false
+  | .ok false :: r => noneOf r
+def nOfGo (n : Nat) : Nat → List R → R
+  | c, [] => .ok (decide (n ≤ c))
+  | _, .error e :: _ => .error e
+  | c, .ok true :: r => if n ≤ c + 1 then .ok true else nOfGo n (c + 1) r
+  | c, .ok false :: r => nOfGo n c r
+
+section loops
+variable (x : Ext) (ev : Event) (states : List (Str × Bool))
+
+/-- the loops evaluate operands one by one and stop early; evaluation is pure, so this is folding the
+    list of the operands' outcomes -/
+theorem allLoop_eq (ms : List Match) : allLoop x ev states ms = allOf (ms.map (matchEvent x ev states)) := by
+  induction ms with
+  | nil => rfl
+  | cons m ms ih =>
+    simp only [allLoop, List.map_cons]
+    cases h : matchEvent x ev states m with
+    | error e => rfl
+    | ok b => cases b <;> simp [allOf, ih]
+theorem anyLoop_eq (ms : List Match) : anyLoop x ev states ms = anyOf (ms.map (matchEvent x ev states)) := by
+  induction ms with
+  | nil => rfl
+  | cons m ms ih =>
+    simp only [anyLoop, List.map_cons]
+    cases h : matchEvent x ev states m with
+    | error e => rfl
+    | ok b => cases b <;> simp [anyOf, ih]
+theorem noneLoop_eq (ms : List Match) : noneLoop x ev states ms = noneOf (ms.map (matchEvent x ev states)) := by
+  induction ms with
+  | nil => rfl
+  | cons m ms ih =>
+    simp only [noneLoop, List.map_cons]
+    cases h : matchEvent x ev states m with
+    | error e => rfl
+    | ok b => cases b <;> simp [noneOf, ih]
+theorem nLoop_eq (n : Nat) (ms : List Match) (c : Nat) :
+    nLoop x ev states n c ms = nOfGo n c (ms.map (matchEvent x ev states)) := by
+  induction ms generalizing c with
+  | nil => rfl
+  | cons m ms ih =>
+    simp only [nLoop, List.map_cons]
+    cases h : matchEvent x ev states m with
+    | error e => rfl
+    | ok b => cases b <;> simp [nOfGo, ih]
+end loops
+
+def NoErr (l : List R) : Prop := ∀ r ∈ l, ∃ b, r = .ok b
+def isTrue : R → Bool
+  | .ok true => true
+  | _ => false
+/-- number of true operands -/
+def trues (l : List R) : Nat := l.countP isTrue
+
+theorem trues_cons_true (l : List R) : trues (.ok true :: l) = trues l + 1 := by
+  unfold trues; rw [List.countP_cons_of_pos (by rfl)]
+theorem trues_cons_false (l : List R) : trues (.ok false :: l) = trues l := by
+  unfold trues; rw [List.countP_cons_of_neg (by simp [isTrue])]
+theorem trues_le (l : List R) : trues l ≤ l.length := List.countP_le_length
+
+theorem allOf_count (l : List R) (h : NoErr l) : allOf l = .ok (trues l == l.length) := by
+  induction l with
+  | nil => rfl
+  | cons r l ih =>
+    obtain ⟨b, rfl⟩ := h r (by simp)
+    have ih := ih (fun r hr => h r (by simp [hr]))
+    have hle := trues_le l
+    cases b with
+    | true => simp [allOf, ih, trues_cons_true]
+    | false =>
+      simp only [allOf, trues_cons_false, List.length_cons]
+      have : (trues l == l.length + 1) = false := by simp; omega
+      rw [this]
+
+theorem anyOf_count (l : List R) (h : NoErr l) : anyOf l = .ok (decide (1 ≤ trues l)) := by
+  induction l with
+  | nil => rfl
+  | cons r l ih =>
+    obtain ⟨b, rfl⟩ := h r (by simp)
+    have ih := ih (fun r hr => h r (by simp [hr]))
+    cases b with
+    | true => simp [anyOf, trues_cons_true]
+    | false => simp only [anyOf, ih, trues_cons_false]
+
+theorem noneOf_count (l : List R) (h : NoErr l) : noneOf l = .ok (trues l == 0) := by
+  induction l with
+  | nil => rfl
+  | cons r l ih =>
+    obtain ⟨b, rfl⟩ := h r (by simp)
+    have ih := ih (fun r hr => h r (by simp [hr]))
+    cases b with
+    | true => simp [noneOf, trues_cons_true]
+    | false => simp only [noneOf, ih, trues_cons_false]
+
+theorem nOfGo_count (n : Nat) (l : List R) (h : NoErr l) (c : Nat) (hc : c < n) :
+    nOfGo n c l = .ok (decide (n ≤ c + trues l)) := by
+  induction l generalizing c with
+  | nil =>
+    simp only [nOfGo, trues, List.countP_nil, Nat.add_zero]
+    congr 1
+  | cons r l ih =>
+    obtain ⟨b, rfl⟩ := h r (by simp)
+    have ih := ih (fun r hr => h r (by simp [hr]))
+    cases b with
+    | true =>
+      simp only [nOfGo, trues_cons_true]
+      by_cases hcn : n ≤ c + 1
+      · have h2 : n ≤ c + (trues l + 1) := by omega
+        simp [hcn, h2]
+      · simp only [hcn, if_false]
+        rw [ih (c + 1) (by omega)]
+        have : c + 1 + trues l = c + (trues l + 1) := by omega
+        rw [this]
+    | false =>
+      simp only [nOfGo, trues_cons_false]
+      exact ih c hc
+
+/-- **Part C.** With no erroring operand, the quantifiers count the true operands among the selected ones:
+    `all` = every one (true on an empty group), `any` = at least one, `none` = zero, `N ≥ 1` = at least N
+    (false when N exceeds the group). `them` selects all operands, `$prefix` those whose name starts with it. -/
+theorem C02_quantifiers (x : Ext) (ev : Event) (states : List (Str × Bool)) (ops : List (Str × Match)) :
+    let vals := fun (ms : List Match) => ms.map (matchEvent x ev states)
+    let them := ops.map Prod.snd
+    (NoErr (vals them) →
+      evalExpr x ev states ops .allOfThem = .ok (trues (vals them) == (vals them).length) ∧
+      evalExpr x ev states ops .anyOfThem = .ok (decide (1 ≤ trues (vals them))) ∧
+      evalExpr x ev states ops .noneOfThem = .ok (trues (vals them) == 0) ∧
+      ∀ n, 1 ≤ n → evalExpr x ev states ops (.nOfThem n) = .ok (decide (n ≤ trues (vals them)))) ∧
+    (∀ p, NoErr (vals (selectOps ops p)) →
+      evalExpr x ev states ops (.allOfVars p) = .ok (trues (vals (selectOps ops p)) == (vals (selectOps ops p)).length) ∧
+      evalExpr x ev states ops (.anyOfVars p) = .ok (decide (1 ≤ trues (vals (selectOps ops p)))) ∧
+      evalExpr x ev states ops (.noneOfVars p) = .ok (trues (vals (selectOps ops p)) == 0) ∧
+      ∀ n, 1 ≤ n → evalExpr x ev states ops (.nOfVars n p) = .ok (decide (n ≤ trues (vals (selectOps ops p))))) := by
+  intro vals them
+  refine ⟨fun h => ⟨?_, ?_, ?_, ?_⟩, fun p h => ⟨?_, ?_, ?_, ?_⟩⟩
+  · simp only [evalExpr, allLoop_eq]; exact allOf_count _ h
+  · simp only [evalExpr, anyLoop_eq]; exact anyOf_count _ h
+  · simp only [evalExpr, noneLoop_eq]; exact noneOf_count _ h
+  · intro n hn; simp only [evalExpr, nLoop_eq]; rw [nOfGo_count n _ h 0 (by omega)]; simp
+  · simp only [evalExpr, allLoop_eq]; exact allOf_count _ h
+  · simp only [evalExpr, anyLoop_eq]; exact anyOf_count _ h
+  · simp only [evalExpr, noneLoop_eq]; exact noneOf_count _ h
+  · intro n hn; simp only [evalExpr, nLoop_eq]; rw [nOfGo_count n _ h 0 (by omega)]; simp
+
+/-- `0 of …` means none; the prefix is exactly the `var` token, the count the value of all its digits -/
+theorem C02_zero_is_none (d p : Str) (h : countVal d = 0) :
+    leafExpr (.nOfThem d) = .noneOfThem ∧ leafExpr (.nOfVars d p) = .noneOfVars p := by
+  simp [leafExpr, h]
+theorem C02_count_pos (d p : Str) (h : countVal d ≠ 0) :
+    leafExpr (.nOfThem d) = .nOfThem (countVal d) ∧ leafExpr (.nOfVars d p) = .nOfVars (countVal d) p := by
+  simp [leafExpr, h]
+
+/-- prefix selection: exactly the operands whose name starts with the prefix -/
+theorem C02_select (ops : List (Str × Match)) (p : Str) (m : Match) :
+    m ∈ selectOps ops p ↔ ∃ n, (n, m) ∈ ops ∧ startsWith n p = true := by
+  simp only [selectOps, List.mem_map, List.mem_filter]
+  constructor
+  · rintro ⟨⟨n, m'⟩, ⟨hm, hs⟩, rfl⟩; exact ⟨n, hm, hs⟩
+  · rintro ⟨n, hm, hs⟩; exact ⟨(n, m), ⟨hm, hs⟩, rfl⟩
+
+/-! ### Part D: on condition strings -/
+/-- an absent or empty condition is true -/
+theorem C02_empty (x : Ext) (ev : Event) (states : List (Str × Bool)) (ops : List (Str × Match)) :
+    parseCond [] = .ok .none ∧ evalExpr x ev states ops .none = .ok true := ⟨rfl, rfl⟩
+
+/-- **C02 on strings.** Whatever string the grammar accepts (CST `c`), `Expr::from_str` returns — without
+    panicking — an expression whose value on every event is the meaning of `c`. -/
+theorem C02_condition (s : Str) (c : CExpr) (hs : s ≠ []) (h : parseCondCst s = some c) :
+    ∃ e, parseCond s = .ok e ∧
+      ∀ (x : Ext) (ev : Event) (states : List (Str × Bool)) (ops : List (Str × Match)),
+        evalExpr x ev states ops e = denE (evalExpr x ev states ops) c := by
+  obtain ⟨e, he, hv⟩ := C02_precedence c
+  refine ⟨e, ?_, hv⟩
+  unfold parseCond
+  have : (s == []) = false := by
+    cases s with
+    | nil => exact absurd rfl hs
+    | cons _ _ => rfl
+  simp only [this, Bool.false_eq_true, if_false, h, he]
+
+/-- `Expr::from_str` never panics (the `unreachable!`/`panic!` arms of the Pratt parser are dead) -/
+theorem parseCond_no_panic (s : Str) : parseCond s ≠ .panic := by
+  cases s with
+  | nil => intro h; cases h
+  | cons a r =>
+    cases hc : parseCondCst (a :: r) with
+    | none =>
+      have : parseCond (a :: r) = .err := by
+        unfold parseCond
+        simp only [hc]
+        rfl
+      rw [this]; intro h; cases h
+    | some c =>
+      obtain ⟨e, he, _⟩ := C02_condition (a :: r) c (by simp) hc
+      rw [he]; intro h; cases h
+
+end Gene.Props.C02
